@@ -3,8 +3,10 @@
 (* asmjit emitted for one frame configuration, with an arbitrary function body in between.                  *)
 (*                                                                                                          *)
 (* An observation O (one line of harness/frame.cpp output) carries                                          *)
-(*   O.cfg  the configuration that was handed to the code (environment, convention, registers the body      *)
-(*          clobbers, local/call stack size+alignment, preserved FP, ...)            -- INPUT, ground truth *)
+(*   O.cfg  the configuration that was handed to the code: environment, convention, and O.cfg.ops = the     *)
+(*          SEQUENCE of FuncFrame setter calls executed between init() and finalize().  What the body was   *)
+(*          promised (local/call stack size+alignment, clobbered registers, preserved FP, ...) is derived    *)
+(*          HERE from that sequence by the setters' documented meaning (Eff)           -- INPUT, ground truth *)
 (*   O.cc   the calling convention as the code materialised it        -- used only for asmjit-DEFINED       *)
 (*          conventions (LightCall); standard ABIs are tabulated below from the ABI documents               *)
 (*   O.fd   stack offsets of stack-passed arguments (FuncDetail; their correctness is C06)                  *)
@@ -98,9 +100,29 @@ CalleePops(O) == LET c == O.cfg IN
   IsX86(c) /\ (c.cc \in {"stdcall", "fastcall", "vectorcall"} \/ (c.cc = "thiscall" /\ c.env = "x86-win"))
 PopBytes(O) == IF CalleePops(O) THEN O.fd.argstack ELSE 0
 
+(* THE CONTRACT OF THE SETTERS (func.h documentation): set_* assigns, update_* "updates to the greater value", *)
+(* add_dirty_regs adds, set_dirty_regs assigns, set_/reset_ attribute pairs switch the attribute.  The order   *)
+(* of calls to DIFFERENT setters is irrelevant: the finalized frame must honour the last/max value of each.   *)
+Eff0 == [ls |-> 0, la |-> 0, cs |-> 0, ca |-> 0, fp |-> 0, calls |-> 0, d |-> <<{}, {}, {}, {}>>]
+ApplyOp(e, o) ==
+  LET n == o.op IN
+  IF n = "set_ls" THEN [e EXCEPT !.ls = o.a] ELSE IF n = "update_ls" THEN [e EXCEPT !.ls = Max2(@, o.a)]
+  ELSE IF n = "set_la" THEN [e EXCEPT !.la = o.a] ELSE IF n = "update_la" THEN [e EXCEPT !.la = Max2(@, o.a)]
+  ELSE IF n = "set_cs" THEN [e EXCEPT !.cs = o.a] ELSE IF n = "update_cs" THEN [e EXCEPT !.cs = Max2(@, o.a)]
+  ELSE IF n = "set_ca" THEN [e EXCEPT !.ca = o.a] ELSE IF n = "update_ca" THEN [e EXCEPT !.ca = Max2(@, o.a)]
+  ELSE IF n = "add_dirty" THEN [e EXCEPT !.d[o.g + 1] = @ \cup ToSet(o.ids)]
+  ELSE IF n = "set_dirty" THEN [e EXCEPT !.d[o.g + 1] = ToSet(o.ids)]
+  ELSE IF n = "set_fp" THEN [e EXCEPT !.fp = 1] ELSE IF n = "reset_fp" THEN [e EXCEPT !.fp = 0]
+  ELSE IF n = "set_calls" THEN [e EXCEPT !.calls = 1] ELSE IF n = "reset_calls" THEN [e EXCEPT !.calls = 0]
+  ELSE e             \* AVX/MMX/IBT attributes and the SA register select instructions, they promise nothing to the body
+RECURSIVE FoldOps(_, _, _)
+FoldOps(ops, n, e) == IF n > Len(ops) THEN e ELSE FoldOps(ops, n + 1, ApplyOp(e, ops[n]))
+Eff(O) == FoldOps(O.cfg.ops, 1, Eff0)
+
 (* what the body was promised *)
-Promised(O) == Max2(NatAlign(O), Max2(O.cfg.la, O.cfg.ca))
-NeedAlign(O) == O.cfg.ls > 0 \/ O.cfg.cs > 0 \/ O.cfg.calls = 1
+Promised(O) == LET e == Eff(O) IN Max2(NatAlign(O), Max2(e.la, e.ca))
+CallAlign(O) == LET e == Eff(O) IN Max2(NatAlign(O), e.ca)     \* at a call site
+NeedAlign(O) == LET e == Eff(O) IN e.ls > 0 \/ e.cs > 0 \/ e.calls = 1
 
 ------------------------------------------------------------------------------
 (* Program and register universe *)
@@ -118,7 +140,7 @@ RegDom(O) == LET P == Prog(O) IN
   UNION {Mentioned(P[n]) : n \in 1..Len(P)} \cup PresRegs(O) \cup {SPK(O), FPK(O)}
     \cup (IF IsA64(O.cfg) THEN {LRK(O)} ELSE {}) \cup (IF O.fr.sa_reg < 32 THEN {<<0, O.fr.sa_reg>>} ELSE {})
 
-DirtyRegs(O) == UNION {{<<g, id>> : id \in ToSet(O.cfg.d[g + 1]) \cup ToSet(O.fr.dirty[g + 1])} : g \in 0..3}
+DirtyRegs(O) == LET e == Eff(O) IN UNION {{<<g, id>> : id \in e.d[g + 1] \cup ToSet(O.fr.dirty[g + 1])} : g \in 0..3}
 
 ------------------------------------------------------------------------------
 (* Memory *)
@@ -273,14 +295,17 @@ BodyExec(O, st) ==
   LET c == O.cfg
       F == O.fr
       S == st.reg[SPK(O)].v
+      e == Eff(O)
+      dirty == DirtyRegs(O)
+      pres == PresRegs(O)
       keepReg(k) == \/ k = SPK(O)
-                    \/ (c.fp = 1 /\ k = FPK(O))
-                    \/ (k \in PresRegs(O) /\ k \notin DirtyRegs(O))
-                    \/ (IsA64(c) /\ k = LRK(O) /\ k \notin DirtyRegs(O))   \* a leaf body leaves the link register alone
+                    \/ (e.fp = 1 /\ k = FPK(O))
+                    \/ (k \in pres /\ k \notin dirty)
+                    \/ (IsA64(c) /\ k = LRK(O) /\ k \notin dirty)   \* a leaf body leaves the link register alone
       regs == [k \in DOMAIN st.reg |-> IF keepReg(k) THEN st.reg[k] ELSE JunkR]
   IN IF ~IsInt(S) THEN Fault([st EXCEPT !.reg = regs, !.bsp = 0], "BadAddress")
-     ELSE LET m1 == JunkRange(st.mem, S.a + F.local_off, S.a + F.local_off + c.ls)
-              m2 == JunkRange(m1, S.a, S.a + c.cs)
+     ELSE LET m1 == JunkRange(st.mem, S.a + F.local_off, S.a + F.local_off + e.ls)
+              m2 == JunkRange(m1, S.a, S.a + e.cs)
               m3 == JunkRange(m2, S.a - F.red, S.a)
               m4 == JunkRange(m3, st.esp + RetSize(c), st.esp + RetSize(c) + F.spill)
           IN [st EXCEPT !.reg = regs, !.mem = m4, !.bsp = S.a]
@@ -368,15 +393,18 @@ NoWriteOutsideFrame(O) ==
 AlignedInBody(O) ==
   /\ "MisalignedVec" \notin bad
   /\ (AtBody(O) /\ IsInt(SpNow(O)) =>
+        LET e == Eff(O) IN
         /\ (NeedAlign(O) => SpNow(O).a % Promised(O) = 0)
-        /\ (O.cfg.ls > 0 /\ O.cfg.la > 1 => (SpNow(O).a + O.fr.local_off) % O.cfg.la = 0))
+        /\ (e.cs > 0 \/ e.calls = 1 => SpNow(O).a % CallAlign(O) = 0)             \* every call site: SP = call area
+        /\ (e.ls > 0 /\ e.la > 1 => (SpNow(O).a + O.fr.local_off) % e.la = 0))     \* locals
 
 (* areas: pairwise disjoint, at or above the body's SP, below the return address / caller frame *)
 Areas(O, S) ==
   LET c == O.cfg
+      e == Eff(O)
       F == O.fr
-  IN (IF c.cs > 0 THEN {<<"call", S, S + c.cs>>} ELSE {})
-     \cup (IF c.ls > 0 THEN {<<"local", S + F.local_off, S + F.local_off + c.ls>>} ELSE {})
+  IN (IF e.cs > 0 THEN {<<"call", S, S + e.cs>>} ELSE {})
+     \cup (IF e.ls > 0 THEN {<<"local", S + F.local_off, S + F.local_off + e.ls>>} ELSE {})
      \cup (IF F.ex_size > 0 THEN {<<"extra", S + F.ex_off, S + F.ex_off + F.ex_size>>} ELSE {})
      \cup (IF F.has_da_off THEN {<<"da", S + F.da_off, S + F.da_off + RegSize(c)>>} ELSE {})
 SaveCells(O) == {<<"save", a, a + mem[a].sz>> : a \in {x \in DOMAIN mem : x < esp}}
@@ -403,7 +431,7 @@ StackArgs(O) ==
 
 (* a preserved frame pointer points at a frame record: [fp] = caller's fp, next slot = return address / lr *)
 FrameRecord(O) ==
-  AtBody(O) /\ O.cfg.fp = 1 =>
+  AtBody(O) /\ Eff(O).fp = 1 =>
     LET f == reg[FPK(O)].v
         rs == RegSize(O.cfg)
     IN /\ IsInt(f)
